@@ -118,8 +118,13 @@ class Check:
         self.assumptions = []
         self.checker_cmds = []
         self.notes = []
-        self.workdir = os.path.join(WORK, pid)
+        # scratch of this run only (two runs of the same check may overlap, e.g. one against /repo
+        # and one against another checkout); removed by finish() unless something was reported
+        self.workdir = os.path.join(WORK, pid, "run-%d" % os.getpid())
         os.makedirs(self.workdir, exist_ok=True)
+        # stable per-property directory for things worth keeping between runs (generated corpus
+        # crates whose build is cached)
+        self.cachedir = os.path.join(WORK, pid)
         os.makedirs(REPLAY, exist_ok=True)
         self.findings = load_findings()
 
@@ -253,7 +258,7 @@ class Check:
                     raise RuntimeError("cannot parse coqc output of shard %d: %s" % (k, flat[-500:]))
                 for mm in re.finditer(r"\(\s*(\d+)\s*,\s*(\d+)\s*\)", m.group(1)):
                     bad[k * per_shard + int(mm.group(1))] = int(mm.group(2))
-        self.checker_cmds.append("coqc -Q coq ZV work/%s/%s/s*.v  (%d shards, vm_compute)" % (
+        self.checker_cmds.append("coqc -Q coq ZV work/%s/run-*/%s/s*.v  (%d shards, vm_compute)" % (
             self.pid, name, len(shards)))
         return bad
 
@@ -391,6 +396,9 @@ class Check:
         os.makedirs(EVID, exist_ok=True)
         with open(os.path.join(EVID, "%s.json" % self.pid), "w") as f:
             json.dump(ev, f, indent=1)
+        if not self.violations:
+            import shutil
+            shutil.rmtree(self.workdir, ignore_errors=True)
         sys.stdout.flush()
         sys.exit(1 if self.violations else 0)
 
